@@ -28,9 +28,12 @@ SPECIAL = (
     "ÿ", "ÿ", "ÿ", "þ", "é", "ß", "\xa0", "¿",
     "€", "Ÿ", "™", "Š", "ž", "…",
     "\x80", "\x81", "\x8d", "\x9d", "\x9f",
-    "Ā", "Ω", "я", "日", "\ufffd", "\uffff",
+    "Ā", "Ω", "я", "日", "\ufffd", "\uffff", "\u0301", "\u0308", "\u212a", "\u212b", "{", "}", "%",
     "\U0001F600", "\U00010000", "\U0010FFFF",
 )
+
+
+TEMPLATES = ("{}", "{0}", "{a}", "{name} x", "%s", "%d", "{0!r}", "{{}}", "${x}", "\\n", "e\u0301", "A\u030a")
 
 
 class Bits:
@@ -65,6 +68,10 @@ def text(bits, max_size, exclude="", hot=""):
     BMP, 2/16 astral."""
     sel = bits.below(8)
     n = 0 if sel == 0 else max_size if sel == 1 else bits.below(max_size + 1)
+    if bits.below(32) == 0:
+        # strings that mean something to formatting / templating code
+        t = bits.pick(TEMPLATES)[:max_size]
+        return "".join("a" if ch in exclude else ch for ch in t)
     out = []
     for _ in range(n):
         cls = bits.below(16)
